@@ -159,6 +159,16 @@ class CallMixin:
                 arr = base.ty.arr(base.t)
                 return SV(z3.If(hi > lo, psum(arr, hi) - psum(arr, lo), 0), T.Int)
         v = self.ev(a, st)
+        if isinstance(v.ty, T.Union):
+            cands = [(tag, aty) for tag, aty in v.ty.alts.items() if isinstance(aty, (T.Tup, T.Seq))]
+            if len(cands) == 1:
+                self.check(st, v.ty.is_(cands[0][0], v.t), "TypeError(sum)", node)
+                v = SV(v.ty.proj(cands[0][0], v.t), cands[0][1])
+        if isinstance(v.ty, T.Tup) and all(t == T.Int for t in v.ty.items):
+            tot = z3.IntVal(0)
+            for i in range(len(v.ty.items)):
+                tot = tot + v.ty.get(v.t, i)
+            return SV(tot, T.Int)
         if isinstance(v.ty, T.Seq) and v.ty.elem == T.Int:
             return SV(psum(v.ty.arr(v.t), v.ty.len(v.t)), T.Int)
         raise Unsupported(f"sum of {v.ty}")
